@@ -24,7 +24,7 @@ BUDGET = {
     "thorough": {"worlds": 4000, "runs": 150, "wall_cap": 2400, "world_wall": 120},
 }
 REQUIRED_PROBES = ["multi_page", "empty_middle_page", "fault_between_pages", "request_reused", "reuse_during",
-                   "cancelled_mid_iteration", "nonpaged_method", "map_paged", "scalar_paged", "concurrent_pagers",
+                   "cancelled_mid_iteration", "rest_reply_body_lost", "nonpaged_method", "map_paged", "scalar_paged", "concurrent_pagers",
                    "nonretryable_between_pages", "explicit_options_multi_page", "async_multi_page", "pages_consumed", "rest_fetch",
                    "rest_multi_page", "repeated_cursor_value"]
 ASSUMPTIONS = ["corners excluded from the grammar: both page_size and max_results in one request; wrapper-typed "
@@ -254,6 +254,11 @@ def _restify(spec, rng, fs, s, m, op):
         op["faults"][k] = [o for o in lst if o["code"] in simhttp.ROUND_TRIP]
         if not op["faults"][k]:
             del op["faults"][k]
+    if op.get("pages") and rng.random() < 0.1:
+        # fault: one page fetch is answered 200 with an EMPTY body (the reply was lost on the way); the rest of the
+        # listing cannot be known, so the iteration must not end as if it were complete
+        op["faults"].setdefault(str(rng.randrange(len(op["pages"]))), []).append({"code": "LOST_BODY"})
+        op.pop("nested", None)
     call = op.get("call") or {}
     if isinstance(call.get("retry"), dict):
         call["retry"]["codes"] = [c for c in call["retry"]["codes"] if c in simhttp.ROUND_TRIP] or ["UNAVAILABLE"]
@@ -372,6 +377,10 @@ def server_factory(run):
         script = (op.get("faults") or {}).get(str(i), [])
         if st["tries"][i] <= len(script):
             o = script[st["tries"][i] - 1]
+            if o["code"] == "LOST_BODY":
+                # REST only: 200 OK with a zero-length body.  The page's content is lost; the reference server does not
+                # count it as served
+                return {"lat": op.get("lat", 0.0), "lost_body": True, "msg": values.to_dynamic(codec, m["output"], {})}
             return {"lat": op.get("lat", 0.0), "code": o["code"]}
         st["served"][i] = st["served"].get(i, 0) + 1
         st["next"] = i + 1
@@ -531,6 +540,7 @@ def judge_op(spec, codec, scenario, op, evs, probes):
     first_md = None
     new_fetch = True
     surfaced = None            # exception class expected to surface
+    lost_reply = None          # index of a page whose reply body was lost (REST: 200 with zero bytes)
     done = False
     fetched = 0
     for a in attempts:
@@ -582,6 +592,9 @@ def judge_op(spec, codec, scenario, op, evs, probes):
         sv = servers.get(a["n"])
         if sv is None:
             return V("harness_no_server_event", "attempt without server event")
+        if sv.get("lost_body"):
+            lost_reply = i
+            break
         if sv.get("code"):
             code = sv["code"]
             if i >= 1 or True:
@@ -656,6 +669,15 @@ def judge_op(spec, codec, scenario, op, evs, probes):
     if outcome["k"] == "cancelled":
         _bump(probes, "cancelled_mid_iteration")
         return []      # prefix already checked above
+    stop = op.get("stop_after")
+    if lost_reply is not None:
+        _bump(probes, "rest_reply_body_lost")
+        lost_something = bool(exp_items[lost_reply]) or lost_reply < len(pages) - 1
+        if outcome["k"] != "raise" and lost_something and not (stop and n_obs == stop):
+            return V("lost_reply_ignored", f"the fetch of page {lost_reply} was answered 200 with a zero-length body, yet the iteration ended "
+                     f"normally after {n_obs} of {full} {'pages' if op.get('consume') == 'pages' else 'items'}: what the lost reply "
+                     f"and the pages after it held was silently dropped")
+        return []
     stop = op.get("stop_after")
     if surfaced:
         if outcome["k"] != "raise" or outcome.get("cls") != surfaced:
